@@ -125,6 +125,9 @@ func runTail(rp E2EReplay) (*e2eOut, error) {
 		if _, e := viaBackend(api.QueryRequest{Query: query, Limit: -1}); e == nil {
 			fail("query-validation", "backend.Querier answered a query with limit -1")
 		}
+		if _, e := viaBackend(api.QueryRequest{Query: query, Limit: 5, WaitTimeout: -1}); e == nil {
+			fail("query-validation", "backend.Querier answered a query with WaitTimeout -1")
+		}
 		type probe struct {
 			what    string
 			req     api.QueryRequest
@@ -136,6 +139,8 @@ func runTail(rp E2EReplay) (*e2eOut, error) {
 			{"a query text that does not parse", api.QueryRequest{Query: "SELECT FROM {" + key, Limit: 5}, true, 0},
 			{"limit 0, not waiting", api.QueryRequest{Query: query, Limit: 0}, false, 0},
 			{"limit above the maximum (clamped)", api.QueryRequest{Query: query, Limit: 20000}, false, n0},
+			{"limit one above the maximum (clamped)", api.QueryRequest{Query: query, Limit: 10001}, false, n0},
+			{"WaitTimeout at the maximum (data is there: answers at once)", api.QueryRequest{Query: query, Limit: 10000, WaitTimeout: 60}, false, n0},
 		} {
 			r1, e1 := viaRPC(p.req)
 			r2, e2 := viaBackend(p.req)
